@@ -372,6 +372,44 @@ def rate_array_scan_items(tier):
     return items
 
 
+def guard_operand_items(tier):
+    """C06 frame: the quantities a window guard is tested against are the caller's.  In every rendered rate evaluator (EvalRates,
+    EvalHeatingRates, EvalCoolingRates of every back end) a user parameter is bound once (`realtype X = u_data->X;`) and never
+    assigned again, and the evaluator never writes through u_data: a guard `if (Tgas > lo && Tgas < hi)` therefore compares the
+    temperature the caller supplied."""
+    from .native_ode import render, networks, strip_comments
+    items = []
+    label, fac = next(x for x in networks("quick", 0) if x[0] == "cooling-1")
+    for backend in [("cvode", "dense", "cpu"), ("cvode", "sparse", "cpu"), ("cvode", "cusparse", "gpu"), ("odeint", "rosenbrock4", "cpu")]:
+        net = fac()
+        files = render(net, *backend, jac_pattern=False)
+        b = "/".join(backend[:2])
+        found = 0
+        for fn, raw in sorted(files.items()):
+            if not fn.startswith("src/") or not fn.endswith((".cpp", ".cu")):
+                continue
+            txt = strip_comments(raw)
+            for m in re.finditer(r"\b(Eval(?:Heating|Cooling)?Rates(?:Device)?)\s*\([^;{)]*\)\s*\{", txt):
+                depth, j = 1, m.end()
+                while j < len(txt) and depth:
+                    depth += {"{": 1, "}": -1}.get(txt[j], 0)
+                    j += 1
+                body = txt[m.end():j - 1]
+                params = re.findall(r"\b(?:realtype|double|float)\s+(\w+)\s*=\s*u_data\s*->\s*(\w+)\s*;", body)
+                found += 1
+                bad = []
+                for loc, src in params:
+                    n_assign = len(re.findall(rf"(?<![\w.>])\b{re.escape(loc)}\s*(?:[-+*/]?=)(?!=)", body))
+                    if n_assign != 1:
+                        bad.append(f"{loc} is assigned {n_assign} times")
+                if re.search(r"u_data\s*->\s*\w+\s*(?:\[[^\]]*\]\s*)?(?:[-+*/]?=)(?!=)", body):
+                    bad.append("writes through u_data")
+                items.append(item(f"tmpl/{b}/{fn.split('/')[-1]}/{m.group(1)}/parameters-bound-once-to-the-callers-values", not bad and (len(params) >= 1 or m.group(1) != "EvalRates"),
+                                  "; ".join(bad) or f"{len(params)} parameters"))
+        items.append(item(f"tmpl/{b}/rate-evaluators-found", found >= 1, f"{found}"))
+    return items
+
+
 def _line_tails(body, tails):
     """abstract run over a template body: `tails` is the set of possible texts emitted since the last line break before the
     current point (expressions emit an opaque mark that contains no line break - sound for the statement emitters, whose own
